@@ -281,7 +281,41 @@ input In { a: Int! b: [In] c: E = RED d: String! = "dflt" }
 
 var (
 	coerceSchemas sync.Map // type text -> *ast.Schema
+	// renamedPhase: the cases of the bounded universe are replayed under the renaming E -> __TypeKind,
+	// RED -> OBJECT, GREEN -> SCALAR, PURPLE -> BOGUS (the expectations are invariant under a renaming)
+	renamedPhase bool
 )
+
+var coerceRenaming = map[string]string{"RED": "OBJECT", "GREEN": "SCALAR", "PURPLE": "BOGUS", "red": "object", "green": "scalar"}
+
+func renameType(t JType) JType {
+	if t.K == "named" && t.Name == "E" {
+		t.Name = "__TypeKind"
+	}
+	of := make([]JType, len(t.Of))
+	for i := range t.Of {
+		of[i] = renameType(t.Of[i])
+	}
+	t.Of = of
+	return t
+}
+
+func renameVal(v JVal) JVal {
+	if (v.K == "str" || v.K == "num" || v.K == "enum") && coerceRenaming[v.S] != "" {
+		v.S = coerceRenaming[v.S]
+	}
+	items := make([]JVal, len(v.Items))
+	for i := range v.Items {
+		items[i] = renameVal(v.Items[i])
+	}
+	v.Items = items
+	ents := make([]JEnt, len(v.Ents))
+	for i := range v.Ents {
+		ents[i] = JEnt{Key: v.Ents[i].Key, V: renameVal(v.Ents[i].V)}
+	}
+	v.Ents = ents
+	return v
+}
 
 func coerceSchemaFor(t string) (*ast.Schema, error) { return coerceSchemaVariant(t, false) }
 
@@ -293,6 +327,11 @@ func coerceSchemaVariant(t string, narrow bool) (*ast.Schema, error) {
 	if narrow {
 		key = "narrow:" + t
 		sdl = strings.Replace(coerceSDL, "enum E { RED GREEN }", "enum E { RED }", 1)
+	}
+	if renamedPhase {
+		// the model's enum E stands for the BUILT-IN enum __TypeKind (RED = OBJECT, GREEN = SCALAR)
+		key = "renamed:" + t
+		sdl = "scalar Any\ninput In { a: Int! b: [In] c: __TypeKind = OBJECT d: String! = \"dflt\" }\n"
 	}
 	if s, ok := coerceSchemas.Load(key); ok {
 		return s.(*ast.Schema), nil
@@ -414,6 +453,8 @@ func checkC14(c *core.Ctx) {
 	cfg := fmt.Sprintf("SPECIFICATION Spec\nCONSTANTS\n  Devs = %s\n  D = %d\n  Leaves = %s\nINVARIANTS Emit Sound Idempotent Identity Complete\nCHECK_DEADLOCK FALSE\n", core.DevSetTLA(devs), D, leaves)
 	narrow := false
 	label := "Coerce_MC"
+	phaseNo := 0
+	renamedPhase = false
 phase:
 	var mu sync.Mutex
 	var ncases, nontrivial, nbad int64
@@ -434,6 +475,16 @@ phase:
 					nbad++
 					mu.Unlock()
 					continue
+				}
+				if renamedPhase {
+					cs.T = renameType(cs.T)
+					for i := range cs.Def {
+						cs.Def[i] = renameVal(cs.Def[i])
+					}
+					for i := range cs.Given {
+						cs.Given[i] = renameVal(cs.Given[i])
+					}
+					cs.Exp.Val = renameVal(cs.Exp.Val)
 				}
 				cs.Exp.Val = jvNorm(cs.Exp.Val)
 				for variant := 0; variant < 5; variant++ {
@@ -488,7 +539,8 @@ phase:
 	}
 	c.Count(ncases*5, nontrivial, ncases)
 	c.Logf("%s: %d cases (x5 Go-kind variants) replayed into validator.VariableValues", label, ncases)
-	if !narrow {
+	phaseNo++
+	if phaseNo == 1 {
 		// second phase, same process: a SECOND schema with the same type names but enum E { RED } only;
 		// the specification is evaluated for that schema (switch SCHEMA2)
 		narrow = true
@@ -496,6 +548,16 @@ phase:
 		cfg = fmt.Sprintf("SPECIFICATION Spec\nCONSTANTS\n  Devs = %s\n  D = 1\n  Leaves = {\"E\", \"In\"}\nINVARIANTS Emit Sound Idempotent Identity Complete\nCHECK_DEADLOCK FALSE\n", core.DevSetTLA(append(append([]string{}, devs...), "SCHEMA2")))
 		goto phase
 	}
+	if phaseNo == 2 {
+		// third phase: the enum of the model is a BUILT-IN enum of the prelude (__TypeKind); the same cases under
+		// the renaming, on a schema whose input object refers to it
+		renamedPhase = true
+		narrow = false
+		label = "Coerce_MC under the renaming E -> __TypeKind (a built-in enum)"
+		cfg = fmt.Sprintf("SPECIFICATION Spec\nCONSTANTS\n  Devs = %s\n  D = 1\n  Leaves = {\"E\", \"In\"}\nINVARIANTS Emit Sound Idempotent Identity Complete\nCHECK_DEADLOCK FALSE\n", core.DevSetTLA(devs))
+		goto phase
+	}
+	renamedPhase = false
 
 	// (b) random, deeper
 	n := 3000
